@@ -612,5 +612,190 @@ theorem mloc_assembleLoop (pre test bodyPre post : List Instr) (body : Code)
       H.length + Tt.length + 1 + (BP.length + ((mloc body).length + PO.length)) + 1 := by omega
   rw [a1, a2, a3]
 
+/-! ## from the checker's closedness to `JC` / `Neutral` / plain -/
+
+theorem jc_of_closed {inR il : Bool} {K : List String} {c : Code} {a : Wf.Abs} {sb : Closed.St}
+    (h : Closed.ClosedB inR il K c (none, a) sb) : JC c := by
+  intro k cnd off hk hb
+  have hrun : (Closed.run inR K c (none, a) k).1 = none := by
+    have h1 := Closed.classify_run h.ok hk
+    rw [show Loader.classify (none, a).1 (c.map Closed.gi) = clsG c from rfl, hb] at h1
+    cases hst : (Closed.run inR K c (none, a) k).1 with
+    | none => rfl
+    | some n =>
+      rw [hst] at h1
+      simp [Closed.cbit] at h1
+  have := h.jumps k cnd off hk hrun
+  exact ⟨this.1, this.2.1⟩
+
+theorem plain_of_markerFree {c : Code} (h : Closed.MarkerFree c) :
+    (c.map Closed.gi).all Instr.plainI = true := by
+  rw [List.all_eq_true]
+  intro x hx
+  obtain ⟨g, hg, rfl⟩ := List.mem_map.mp hx
+  have := h g hg
+  cases hgi : Closed.gi g <;> simp_all [Closed.isRoutine, Closed.isEnd, Instr.plainI]
+
+/-- a piece of straight-line code that the checker accepts in every state -/
+theorem ci_piece {K : List String} {xs : List Instr} (h : ∀ inR, Closed.CI inR K xs) :
+    Closed.Neutral (ins xs) ∧ JC (ins xs) ∧ mloc (ins xs) = ins xs := by
+  have hc := h false Wf.Abs.empty false (none, Wf.Abs.empty)
+  have hj := jc_of_closed hc
+  exact ⟨hc.neutral, hj, mloc_plain (plain_of_markerFree (Closed.markerFree_ins (h true))) hj⟩
+
+/-- the same for `LOOP` followed by such a piece -/
+theorem ci_piece_loop {K : List String} {xs : List Instr} (h : ∀ inR, Closed.CI inR K xs) :
+    Closed.Neutral (ins ([Instr.loop] ++ xs)) ∧ JC (ins ([Instr.loop] ++ xs)) ∧
+      mloc (ins ([Instr.loop] ++ xs)) = ins ([Instr.loop] ++ xs) := by
+  obtain ⟨_, hj, _⟩ := ci_piece h
+  have hp := plain_of_markerFree (Closed.markerFree_ins (h true))
+  have e : ins ([Instr.loop] ++ xs) = G.i Instr.loop :: ins xs := rfl
+  rw [e]
+  have hp2 : ((G.i Instr.loop :: ins xs).map Closed.gi).all Instr.plainI = true := by
+    simp only [List.map_cons, List.all_cons, hp, Bool.and_true]; rfl
+  have hj2 : JC (G.i Instr.loop :: ins xs) := by
+    intro k cnd off hk _
+    cases k with
+    | zero => simp at hk
+    | succ k =>
+      simp only [List.getElem?_cons_succ] at hk
+      have hk' : k < (ins xs).length := by
+        rcases Nat.lt_or_ge k (ins xs).length with h' | h'
+        · exact h'
+        · rw [List.getElem?_eq_none h'] at hk; cases hk
+      obtain ⟨h0, h1⟩ := hj k cnd off hk (by
+        rw [clsG_plain hp, List.getElem?_replicate]
+        simp only [Closed.length_ins] at hk'
+        simp [hk'])
+      simp only [List.length_cons]
+      omega
+  exact ⟨neutral_plain hp2, hj2, mloc_plain hp2 hj2⟩
+
+theorem mloc_append {X Y : Code} (hX1 : Closed.Neutral X) (hX : JC X) (hY : JC Y) :
+    mloc (X ++ Y) = mloc X ++ mloc Y := by
+  generalize hW : X ++ Y = W
+  have h0 : InCtx W.length (clsG W) 0 (X ++ Y) := by rw [hW]; exact InCtx.self W
+  have hm : mloc W = mctx W.length (clsG W) (X ++ Y) 0 := by rw [hW]; rfl
+  rw [hm, mctx_append _ _ hX1, (h0.left hX1).closed hX, (h0.right hX1).closed hY]
+
+/-- a routine section has no main part -/
+theorem mloc_section (n : String) {body : Code} (h : Closed.MarkerFree body) :
+    mloc (ins [Instr.routine n] ++ body ++ ins [Instr.end_ n]) = [] := by
+  have hp := plain_of_markerFree h
+  have hc := (classify_sec n (body.map Closed.gi) hp).1
+  have e : (ins [Instr.routine n] ++ body ++ ins [Instr.end_ n]).map Closed.gi =
+      Closed.Load.render (n, body.map Closed.gi) := by
+    simp [ins, Closed.gi, Closed.Load.render]
+  unfold mloc
+  rw [clsG, e, hc]
+  have hl : (ins [Instr.routine n] ++ body ++ ins [Instr.end_ n]).length = (body.map Closed.gi).length + 2 := by
+    simp [ins]
+  rw [← hl]
+  exact mainAuxP_true _ _ _
+
+/-! ## routine definitions replaced by a statement that does nothing and compiles to nothing -/
+
+mutual
+  /-- `time at` without a pattern: no code, no effect — stands where a definition stood -/
+  def stripS : Stmt → Stmt
+    | .defRoutine _ _ _ => .timeAt []
+    | .ite c t none => .ite c (stripB t) none
+    | .ite c t (some e) => .ite c (stripB t) (some (stripB e))
+    | .repeat_ h body => .repeat_ h (stripB body)
+    | .setReg r v => .setReg r v
+    | .units m => .units m
+    | .actAll k => .actAll k
+    | .setDefault => .setDefault
+    | .action k ops => .action k ops
+    | .get v => .get v
+    | .wait => .wait
+    | .timeAt ps => .timeAt ps
+    | .assign n v => .assign n v
+    | .defMacro n v => .defMacro n v
+    | .call f ps as => .call f ps as
+    | .ret v => .ret v
+    | .brk => .brk
+    | .print v => .print v
+    | .println v => .println v
+    | .printf fmt as => .printf fmt as
+    | .stage rows cols cf => .stage rows cols cf
+  def stripB : Block → Block
+    | .nil => .nil
+    | .cons st rest => .cons (stripS st) (stripB rest)
+end
+
+variable {V : String → Prop} {K : List String}
+
+theorem mloc_leaf {s : Stmt} {il im : Bool} (hs : stripS s = s)
+    (h : Closed.wsStmt K false il im s = true) (hf : FragStmt V (stripS s)) :
+    mloc (genStmt s) = genStmt (stripS s) := by
+  rw [hs] at hf ⊢
+  exact mloc_plain (all_map_gi (nr_genStmt s hf))
+    (jc_of_closed (Closed.closed_stmt s false il im h ⟨[], im⟩ ⟨rfl, rfl⟩))
+
+mutual
+  theorem mloc_stmt : ∀ (s : Stmt) (il im : Bool), Closed.wsStmt K false il im s = true →
+      FragStmt V (stripS s) → mloc (genStmt s) = genStmt (stripS s)
+    | .defRoutine n ps body, il, im, h, _ => by
+      simp only [Closed.wsStmt, Bool.and_eq_true] at h
+      rw [genStmt, stripS, genStmt]
+      exact mloc_section n (Closed.markerFree_block h.2)
+    | .ite c t none, il, im, h, hf => by
+      simp only [Closed.wsStmt, Bool.and_eq_true] at h
+      simp only [stripS, FragStmt] at hf
+      obtain ⟨hn, hj, hm⟩ := ci_piece (K := K) (xs := genRv c (.to result)) fun _ => Closed.ci_rv h.1.1 _
+      have ht := Closed.closed_block t false il im h.1.2 ⟨[], im⟩ ⟨rfl, rfl⟩
+      rw [genStmt, stripS, genStmt, mloc_genIf_none hn hj (jc_of_closed ht), hm,
+        mloc_block t il im h.1.2 hf.2.1]
+    | .ite c t (some e), il, im, h, hf => by
+      simp only [Closed.wsStmt, Bool.and_eq_true] at h
+      simp only [stripS, FragStmt] at hf
+      obtain ⟨hn, hj, hm⟩ := ci_piece (K := K) (xs := genRv c (.to result)) fun _ => Closed.ci_rv h.1.1 _
+      have ht := Closed.closed_block t false il im h.1.2 ⟨[], im⟩ ⟨rfl, rfl⟩
+      have he := Closed.closed_block e false il im h.2 ⟨[], im⟩ ⟨rfl, rfl⟩
+      rw [genStmt, stripS, genStmt, mloc_genIf_some hn hj ht.neutral (jc_of_closed ht) (jc_of_closed he),
+        hm, mloc_block t il im h.1.2 hf.2.1, mloc_block e il im h.2 hf.2.2]
+    | .repeat_ hd body, il, im, h, hf => by
+      simp only [Closed.wsStmt, Bool.and_eq_true] at h
+      simp only [stripS, FragStmt] at hf
+      obtain ⟨pre, test, bp, post, e, h1, h2, h3, h4⟩ := Closed.genLoop_parts h.1
+      have hb := Closed.closed_block body false true im h.2 (Closed.loopA ⟨[], im⟩)
+        (Closed.Entry.loop ⟨rfl, rfl⟩)
+      obtain ⟨a1, a2, a3⟩ := ci_piece_loop h1
+      obtain ⟨b1, b2, b3⟩ := ci_piece h2
+      obtain ⟨c1, c2, c3⟩ := ci_piece h3
+      obtain ⟨d1, d2, d3⟩ := ci_piece h4
+      rw [genStmt, stripS, genStmt, e, e,
+        mloc_assembleLoop pre test bp post _ a1 a2 a3 b1 b2 b3 c1 c2 c3 d1 d2 d3 hb.neutral (jc_of_closed hb),
+        mloc_block body true im h.2 hf.2]
+    | .setReg r v, il, im, h, hf => mloc_leaf (by rw [stripS]) h hf
+    | .units m, il, im, h, hf => mloc_leaf (by rw [stripS]) h hf
+    | .actAll k, il, im, h, hf => mloc_leaf (by rw [stripS]) h hf
+    | .setDefault, il, im, h, hf => mloc_leaf (by rw [stripS]) h hf
+    | .action k ops, il, im, h, hf => mloc_leaf (by rw [stripS]) h hf
+    | .get v, il, im, h, hf => mloc_leaf (by rw [stripS]) h hf
+    | .wait, il, im, h, hf => mloc_leaf (by rw [stripS]) h hf
+    | .timeAt ps, il, im, h, hf => mloc_leaf (by rw [stripS]) h hf
+    | .assign n v, il, im, h, hf => mloc_leaf (by rw [stripS]) h hf
+    | .defMacro n v, il, im, h, hf => mloc_leaf (by rw [stripS]) h hf
+    | .call f ps as, il, im, h, hf => mloc_leaf (by rw [stripS]) h hf
+    | .ret v, il, im, h, hf => mloc_leaf (by rw [stripS]) h hf
+    | .brk, il, im, h, hf => mloc_leaf (by rw [stripS]) h hf
+    | .print v, il, im, h, hf => mloc_leaf (by rw [stripS]) h hf
+    | .println v, il, im, h, hf => mloc_leaf (by rw [stripS]) h hf
+    | .printf fmt as, il, im, h, hf => mloc_leaf (by rw [stripS]) h hf
+    | .stage rows cols cf, il, im, h, hf => mloc_leaf (by rw [stripS]) h hf
+  theorem mloc_block : ∀ (b : Block) (il im : Bool), Closed.wsBlock K false il im b = true →
+      FragBlock V (stripB b) → mloc (genBlock b) = genBlock (stripB b)
+    | .nil, il, im, h, hf => by rw [genBlock, stripB, genBlock]; rfl
+    | .cons s rest, il, im, h, hf => by
+      simp only [Closed.wsBlock, Bool.and_eq_true] at h
+      simp only [stripB, FragBlock] at hf
+      have hs := Closed.closed_stmt s false il im h.1 ⟨[], im⟩ ⟨rfl, rfl⟩
+      have hr := Closed.closed_block rest false il im h.2 ⟨[], im⟩ ⟨rfl, rfl⟩
+      rw [genBlock, stripB, genBlock, mloc_append hs.neutral (jc_of_closed hs) (jc_of_closed hr),
+        mloc_stmt s il im h.1 hf.1, mloc_block rest il im h.2 hf.2]
+end
+
 end Sim
 end Bardolph
